@@ -221,3 +221,7 @@ async fn renew_certificate(
 	};
 	(certificate, account_s.clone(), endpoint_s.clone())
 }
+
+#[cfg(feature = "breard_r_acmed_verif")]
+#[path = "/verif/probe/main_event_loop_probe.rs"]
+mod verif;
